@@ -155,7 +155,39 @@ def eq_case(case):
     return r
 
 
-FUNCS = {"term_pairs": binop, "term_coeffs": binop, "scalars": binop, "powers": powop, "sum_pairs": binop, "mixed": binop,
+def construction_case(case):
+    """{'ops': {q:p}, 'orders': [perm of qubits], 'c': coef}: the same Pauli string built in different qubit orders (dict insertion order,
+    product order of single-qubit terms) is one operator: ==, merged by simplify, cancels in a difference, equal as sums"""
+    from orquestra.quantum.operators import PauliTerm, PauliSum
+    ops = case["ops"]
+    objs = []
+    for perm in case["orders"]:
+        objs.append(PauliTerm({int(q): ops[str(q)] for q in perm}, 1.0))
+        t = None
+        for q in perm:
+            f = PauliTerm({int(q): ops[str(q)]}, 1.0)
+            t = f if t is None else t * f
+        objs.append(t)
+    ref = _sm(tuple(sorted((int(q), p) for q, p in ops.items())))
+    k = 0
+    for i, a in enumerate(objs):
+        if not np.allclose(impl_matrix(a), ref, atol=ATOL):
+            return {"ok": False, "msg": "construction %d of the string denotes another matrix" % i, "observed": repr(a), "sig": "construction:matrix"}
+        for j, b in enumerate(objs):
+            k += 1
+            if not (a == b):
+                return {"ok": False, "msg": "the same string built in two qubit orders compares unequal", "observed": [repr(a), repr(b)], "sig": "construction:eq"}
+            s = (a + b).simplify()
+            d = (a - b).simplify()
+            if len(s.terms) != 1 or abs(complex(s.terms[0].coefficient) - 2) > 1e-9 or len(d.terms) != 0:
+                return {"ok": False, "msg": "like terms built in different qubit orders are not merged by simplify", "observed": [repr(s), repr(d)], "sig": "construction:simplify"}
+            other = PauliTerm({5: "Z"}, 0.5)  # commutes with every string on qubits 0..2
+            if not (PauliSum([a, other]).simplify() == PauliSum([other, b]).simplify()) or not ((a + other) * (a + other) == (b * b + 2 * b * other + other * other)):
+                return {"ok": False, "msg": "equal sums built from differently ordered constructions compare unequal", "observed": [repr(a), repr(b)], "sig": "construction:sum-eq"}
+    return {"ok": True, "nt": len(ops) >= 2, "ops": k, "out": "f%d" % len(ops)}
+
+
+FUNCS = {"construction": construction_case, "term_pairs": binop, "term_coeffs": binop, "scalars": binop, "powers": powop, "sum_pairs": binop, "mixed": binop,
          "simplify": simplify_case, "equality": eq_case}
 
 PAULIS = "IXYZ"
@@ -244,4 +276,10 @@ def run(run):
         E = E[:70] + E[-9:]
     cases = [{"a": a, "b": b} for a in E for b in E]
     secs.append(Section("equality", cases, eq_case, desc="== on all ordered pairs of simplified pool members vs matrix equality"))
+    cases = []
+    for st in strings([0, 1, 2]):
+        if len(st) >= 2:
+            qs = sorted(int(q) for q in st)
+            cases.append({"ops": st, "orders": [list(p) for p in itertools.permutations(qs)]})
+    secs.append(Section("construction", cases, construction_case, desc="every string with >=2 factors built in every qubit order (dict order, product order): ==, simplify merges, sums equal"))
     run.run_sections(secs)
